@@ -41,7 +41,16 @@ function c18_mkcmp(kind, p, log, t, snapn)
   elseif kind == "mutgrow" then inner = function(a,b) if n <= 40 then t[#t+1] = 0 end return tostring(a) < tostring(b) end
   end
   local stride = 2 + snapn
+  local scratch = {}
+  local function desc(x, y) return x > y end
   return function(a,b)
+    -- a comparator may use the table library on tables of its own (re-entrancy of sort/insert/remove/concat)
+    scratch[1], scratch[2], scratch[3], scratch[4] = 3, 1, 4, 2
+    table.sort(scratch)
+    local asc = table.concat(scratch, ",")
+    table.sort(scratch, desc)
+    table.insert(scratch, 1, 9)
+    if asc ~= "1,2,3,4" or table.concat(scratch, ",") ~= "9,4,3,2,1" or table.remove(scratch, 1) ~= 9 then error("nested table library call inside a comparator went wrong: " .. asc .. " / " .. table.concat(scratch, ",")) end
     local base = n*stride
     n = n + 1
     log.n = n
@@ -706,7 +715,7 @@ func runC18(run *Run) {
 		"distinct = distinct op-kind skeletons"
 	run.Assume = []string{
 		"sort.Sort (Go standard library) uses only Len/Less/Swap with indices below Len(), terminates for any Less, and sorts under a strict weak order (trusted; sampled by stream 2)",
-		"comparators are pure functions of their arguments (a comparator that mutates the table being sorted is outside the property)",
+		"comparators are pure functions of their arguments (a comparator that mutates the table being sorted is outside the property); every comparator call re-enters table.sort/insert/remove/concat on a private table",
 		"list elements are exact integers, strings, booleans or tables; how non-integral numbers print/compare is C15/C16's subject",
 		"lists are far shorter than the registry limit (table.concat/unpack of thousands of elements raise the catchable 'registry overflow', C12) and than MaxArrayIndex",
 		"the Model describes tablelib.go with fixes/C18-*.diff applied",
